@@ -39,7 +39,7 @@ structure InvB2 (s : State) : Prop where
   v2 : s.hs[0]? = some HPc.done → s.fin = true
 
 theorem InvB2.init (cfg : Cfg) : InvB2 (init cfg) := by
-  constructor <;> simp [Pipeline.init] <;> grind [List.getElem?_replicate]
+  constructor <;> simp [Pipeline.init] <;> grind
 
 theorem InvB2.main {cfg : Cfg} {s s' : State} (hA : InvA cfg s) (h : InvB2 s)
     (hs : MainStep cfg s s') : InvB2 s' := by
